@@ -72,13 +72,14 @@ CHECKS["C04"] = {
 
 CHECKS["C05"] = {
     "level": "model_checking",
-    "engine": "STEP (choice-DFS + ctlstore gates)",
-    "technique": "stateless exhaustive exploration of all await-level interleavings up to a preemption bound (CHESS-style) of 2..4 concurrent calls on the real Collection, each execution decided by a linearizability search against the sequential model",
+    "engine": "STEP (choice-DFS + ctlstore gates) + THREAD (lock-granularity schedules of the synchronous extension API)",
+    "technique": "stateless exhaustive exploration of all await-level interleavings up to a preemption bound (CHESS-style) of 2..4 concurrent calls on the real Collection, plus all lock-granularity schedules up to a preemption bound of 2..3 OS threads in the synchronous extension calls, each execution decided by a linearizability search against the sequential model",
     "design_ref": "DESIGN.md 5/C05, 2.2",
-    "text": "Every subset of 2 (preemption bound 2) and 3 (bound 1) concurrent calls — thorough: 2@3, 3@2, 4@1, 3@3 — from {add x2, update same document different fields x3, update other document, remove x2 of one document, remove other, get, save_extension, flush} runs on a collection preloaded with two flushed documents over a store that makes every backend call a scheduling point before it takes effect; all schedules within the bound are enumerated and for each the return values and the final documents, indexes and counts must equal those of some order of the calls that respects real-time order per document. Deadlock and non-termination are violations. The deciding step is exhaustive enumeration of schedules, which is the only way to close windows a few instructions wide (doc-lock stripes, operation gate, versioned put, cache generations).",
-    "note": "Single-threaded executor: code between two suspension points is atomic (the property's own quantifier); OS-thread parallelism inside the index calls is explored by the THREAD parts of C04/C10/C11. The property's 'randomized multi-threaded executions' are sampling and are not built. The state a concurrent flush persisted is not yet compared (only the final state).",
+    "text": "Every subset of 2 (preemption bound 2) and 3 (bound 1) concurrent calls — thorough: 2@3, 3@2, 4@1, 3@3 — from {add x2, update same document different fields x3, update other document, remove x2 of one document, remove other, get, save_extension, flush} runs on a collection preloaded with two flushed documents over a store that makes every backend call a scheduling point before it takes effect; all schedules within the bound are enumerated and for each the return values and the final documents, indexes and counts must equal those of some order of the calls that respects real-time order per document. Deadlock and non-termination are violations. The deciding step is exhaustive enumeration of schedules, which is the only way to close windows a few instructions wide (doc-lock stripes, operation gate, versioned put, cache generations). thread: the synchronous extension calls (set_extension_with, set_extension_from_with, set_extension, get_extension, extensions_with) never await, so 15 templates of 2..3 real OS threads on the same 1..2 keys (increment vs increment, compare-and-set races, set vs increment vs get, two keys vs a whole-map snapshot) are run one thread at a time with a yield point inside every caller closure and a visible wait on the real metadata lock before every acquisition; all schedules up to 3 preemptions (thorough: up to 8) are enumerated and every call/return history with its return values must be linearizable against a plain map, the final extensions must equal that order and be what flush + reconnect reads back.",
+    "note": "Single-threaded executor: code between two suspension points is atomic (the property's own quantifier); OS-thread parallelism inside the index calls is explored by the THREAD parts of C04/C10/C11, inside the synchronous extension calls by this check's thread part; OS-thread parallelism inside the async calls between two awaits is not explored. The property's 'randomized multi-threaded executions' are sampling and are not built. The state a concurrent flush persisted is not yet compared (only the final state).",
     "parts": [
         {"part": "step", "crate": "vdb", "bin": "c05_step", "args": ["--property", "C05"], "budget_quick": 35, "budget_thorough": 1500},
+        {"part": "thread", "crate": "vthread", "bin": "c05_thread", "budget_quick": 8, "budget_thorough": 600},
     ],
 }
 
@@ -138,7 +139,7 @@ CHECKS["C12"] = {
     "engine": "HIST + CRASH over the real HnswIndex and the anda_db wrapper; recall over a declared seed set",
     "technique": "exhaustive history enumeration and exhaustive flush-write-prefix enumeration on the real HNSW index against a brute-force nearest-neighbour model; recall floors over a declared finite seed set and every crash prefix of the persistence workload",
     "design_ref": "DESIGN.md 5/C12",
-    "text": "hist: every history of <= 3 ops (thorough 4) over {insert a|b, remove, re-insert same/different vector, flush+load} on 7 vectors x 2 variants (incl. duplicate, opposite, zero), 4 metrics x 2 selection strategies x reconnect on/off x dims {2,8} plus a sweep over every dimension 2..64; after each history every stored and 3 out-of-distribution queries, k = 1..n+1, f32 and bf16 entry points: at most k results, distinct, live, distance-ordered, each distance equal to the metric recomputed in f64 from the documented formula, element count exact. crash: every prefix of the node/ids/metadata (and purge) writes of the final flush of every history to depth 2-3: the image loads, is sound immediately (old or new vector until the metadata write), after the database's recovery step (intent replay + repair scan transcription) and after a second flush+load. wrapper: the same through anda_db::index::Hnsw over Storage over the journalling store incl. purge_orphan_node_blobs. interleave: one mutation (insert of a new id / remove of a live id) issued from INSIDE every write closure of a flush (before each node write, before ids, before metadata), i.e. after the flush's snapshot and before its commit, for every history to depth 1-2: the image up to the metadata write loads to exactly the pre-mutation state; after flushing to quiescence + load the soundness oracle, the counts and self-query reachability (reachable before the round trip => reachable after) hold. recall: the documented workloads of tests/recall.rs (generators and tie rule verbatim) per declared layer seed (quick {1,2}, thorough 1..16) hold their floors on fresh / deleted+re-inserted / reloaded indexes, and for the persistence workload at every one of the 594 crash prefixes of the incremental flush after re-indexing the 64 unflushed documents.",
+    "text": "hist: every history of <= 3 ops (thorough 4) over {insert a|b, remove, re-insert same/different vector, flush+load} on 7 vectors x 2 variants (incl. duplicate, opposite, zero), 4 metrics x 2 selection strategies x reconnect on/off x dims {2,8} plus a sweep over every dimension 2..64; after each history every stored and 3 out-of-distribution queries, k = 1..n+1, f32 and bf16 entry points: at most k results, distinct, live, distance-ordered, each distance equal to the metric recomputed in f64 from the documented formula, element count exact. crash: every prefix of the node/ids/metadata (and purge) writes of the final flush of every history to depth 2-3: the image loads, is sound immediately (old or new vector until the metadata write), after the database's recovery step (intent replay + repair scan transcription) and after a second flush+load. wrapper: the same through anda_db::index::Hnsw over Storage over the journalling store incl. purge_orphan_node_blobs. interleave: one mutation (insert of a new id / remove of a live id) issued from INSIDE every write closure of a flush (before each node write, before ids, before metadata), i.e. after the flush's snapshot and before its commit, for every history to depth 1-2: the image up to the metadata write loads to exactly the pre-mutation state; after flushing to quiescence + load the soundness oracle, the counts and self-query reachability (reachable before the round trip => reachable after) hold. recall: the documented workloads of tests/recall.rs (generators and tie rule verbatim) per declared layer seed (quick {1,2}, thorough 1..16) hold their floors on fresh / deleted+re-inserted / reloaded indexes, and for the persistence workload at every one of the 594 crash prefixes of the incremental flush after re-indexing the 64 unflushed documents. Configurations include the layer cap: hist and crash run a layercap stage (tight graph, max_layers 1-2, thorough also 3-4 with scale_factor 3) in which the number of histories that actually reach the cap layer is a measured counter, so generator/validator agreement on the top layer is exercised before every flush + load and crash prefix. wrapper additionally enumerates read faults of the reopen: for every completely flushed image each object-store call of Hnsw::bootstrap (metadata, ids, every node blob, the orphan-sweep listing) fails once, an erroring reopen is retried, and a reopen that reports success must hold every flushed vector (oracle + element count + self-reachability no worse than a fault-free reopen), also after a further flush + reopen.",
     "note": "Recall is a statistic: exhaustive only over the declared seed set and crash prefixes. Entry-point tie-breaks follow papaya's RandomState order (not controllable). Single-threaded index use; no nested crash during recovery of the vector index alone (C01 covers that at collection level).",
     "parts": [
         {"part": "hist", "crate": "vhnsw", "bin": "c12_hist", "budget_quick": 15, "budget_thorough": 900},
@@ -211,12 +212,13 @@ CHECKS["C15"] = {
     "engine": "SCOPE (all strings over an alphabet; grammar-derived sentences; single-token mutants; metamorphic variants)",
     "technique": "bounded-exhaustive input enumeration against the real parsers in supervised child processes (256 KiB stack, 5 s watchdog): every string over an 18-symbol alphabet to length 5/6, every grammar sentence to derivation depth 3/4 with every single-token mutant and metamorphic variant, nesting and length limit probes",
     "design_ref": "DESIGN.md 5/C15",
-    "text": "sigma: every string over the 18-symbol alphabet up to length 5 (2.0 M strings; thorough 6 = 36 M) through parse_kip/kql/kml/meta/json. limits: nesting towers at total depth 63, 64, 65, 200, 10^4 (thorough to 10^5) for each bracket kind raw, inside strings and inside comments, 16 nesting constructs, 9 lexical tricks against the bracket pre-scan, 7 bracket-free operator towers, 14 paddings at MAX-1/MAX/MAX+1 bytes: over-limit (by an independent count) is refused with ResourceExhausted by all five entry points, brackets in strings/comments leave the command unchanged. grammar: an each-choice walk of the KIPSyntax.md grammar (7,906 sentences quick, 12,114 thorough, all accepted) x metamorphic variants (compact rendering, trivia at every token gap incl. comments holding quotes and brackets, every keyword in other casings) that must give an equal AST x every single-token mutant (delete, duplicate, swap, truncate, splice of foreign tokens): no panic / overflow / >5 s parse; parse_kip agrees with the three specific parsers; accepted => validate_command ok, re-parses identically, trailing garbage refused, serde_json round trip equal.",
+    "text": "sigma: every string over the 18-symbol alphabet up to length 5 (2.0 M strings; thorough 6 = 36 M) through parse_kip/kql/kml/meta/json. limits: nesting towers at total depth 63, 64, 65, 200, 10^4 (thorough to 10^5) for each bracket kind raw, inside strings and inside comments, 16 nesting constructs, 9 lexical tricks against the bracket pre-scan, 7 bracket-free operator towers, 14 paddings at MAX-1/MAX/MAX+1 bytes: over-limit (by an independent count) is refused with ResourceExhausted by all five entry points, brackets in strings/comments leave the command unchanged. grammar: an each-choice walk of the KIPSyntax.md grammar (7,906 sentences quick, 12,114 thorough, all accepted) x metamorphic variants (compact rendering, trivia at every token gap incl. comments holding quotes and brackets, every keyword in other casings) that must give an equal AST x every single-token mutant (delete, duplicate, swap, truncate, splice of foreign tokens): no panic / overflow / >5 s parse; parse_kip agrees with the three specific parsers; accepted => validate_command ok, re-parses identically, trailing garbage refused, serde_json round trip equal. strings: bounded-exhaustive enumeration of the string-literal lexer's input classes: all single, paired and tripled \\u escapes over the UTF-16 class boundaries (first/last high, first/last low, neighbouring BMP code points, escaped quote/backslash), all truncations and misspellings, all simple escapes, both hex casings, three positions, on each of the 28 grammar positions that read a quoted string plus unquote_str (50,316 cases), against an independent UTF-16 reference decoder: malformed => refused, well-formed and accepted => the tree equals the placeholder tree with the reference decode substituted; built with arithmetic overflow checks on (probed at run time and recorded).",
     "note": "Inputs beyond the alphabet/length and derivation depth are not claimed; each-choice coverage of grammar alternatives rather than the full product. Recorded finding: accepted trees nested deeper than ~41/59 do not survive a JSON decode.",
     "parts": [
         {"part": "sigma", "crate": "vkip", "bin": "c15_sigma", "budget_quick": 14, "budget_thorough": 600},
         {"part": "limits", "crate": "vkip", "bin": "c15_limits", "budget_quick": 8, "budget_thorough": 120},
         {"part": "grammar", "crate": "vkip", "bin": "c15_grammar", "budget_quick": 30, "budget_thorough": 900},
+        {"part": "strings", "crate": "vkip", "bin": "c15_strings", "budget_quick": 6, "budget_thorough": 60},
     ],
 }
 
